@@ -46,6 +46,8 @@ BusWrite == IsEvent("bw") /\ m' = MWrite(m, Recs[l].a, Recs[l].v).m /\ ProjOK(m'
 \* a bus read by the driver: the value must be what the map shows (P1 bits 6-7 and STAT bit 7 are not constrained)
 ReadMask(a) == IF a = 65280 THEN 63 ELSE IF a = 65345 THEN 127 ELSE 255
 BusRead == IsEvent("br") /\ UNCHANGED m /\ (MRead(m, Recs[l].a) & ReadMask(Recs[l].a)) = (Recs[l].v & ReadMask(Recs[l].a))
+\* the instruction-fetch view of an executable address shows the same byte as a data read
+BusFetch == IsEvent("bf") /\ UNCHANGED m /\ Executable(Recs[l].a) /\ MRead(m, Recs[l].a) = Recs[l].v
 \* devices advance without the CPU (the driver calls the catch-up entry point directly)
 Tick == IsEvent("tick") /\ m' = CatchUp(m, Recs[l].n).m /\ ProjOK(m', Recs[l].o)
 Press == IsEvent("press") /\ m' = PressButton(m, Recs[l].b) /\ ProjOK(m', Recs[l].o)
@@ -68,7 +70,7 @@ Step == IsEvent("step") /\ (Recs[l].k = "halt" <=> m.run # "Run")
            /\ r.wr = Recs[l].wr /\ r.out = Recs[l].out
            /\ ClockOK(r, Recs[l]) /\ ImeOK(r, Recs[l])
 
-Next == NewHistory \/ BusWrite \/ BusRead \/ Tick \/ Press \/ Release \/ Step
+Next == NewHistory \/ BusWrite \/ BusRead \/ BusFetch \/ Tick \/ Press \/ Release \/ Step
 TraceSpec == Init /\ [][Next]_<<m, l>>
 
 Matched == TLCGet("stats").diameter
